@@ -368,6 +368,31 @@ def generate(template_path: str) -> Tuple[str, List[dict]]:
             else:
                 opts.setdefault("_pos", []).append(p)
         pos = opts.get("_pos", [])
+        if cmd == "wholefile":
+            # the whole source file verbatim, minus `#[cfg(test)] mod ... { }` items
+            src = getsrc(arg0)
+            text = src.text
+            cuts = []
+            for it in src.items:
+                if it.kind == "mod" and it.body_open is not None:
+                    # look back for a #[cfg(test)] attribute directly before the item
+                    pre = src.text[max(0, src.toks[it.first].start - 200):src.toks[it.first].start]
+                    if re.search(r"#\[cfg\(test\)\]\s*$", pre):
+                        a = src.text.rfind("#[cfg(test)]", 0, src.toks[it.first].start)
+                        cuts.append((a, src.toks[it.last].end))
+            for a, b in sorted(cuts, reverse=True):
+                text = text[:a] + text[b:]
+            uid += 1
+            out.append(f"/*@B:{uid}*/\n{text}\n/*@E:{uid}*/")
+            manifest.append({"uid": uid, "kind": "wholefile", "src": src.spec, "name": src.spec, "tokens": norm(text)})
+            for it in all_items(src):
+                if it.kind in ("impl", "trait") and it.body_open is not None:
+                    for f in items_in(src.toks, it.body_open + 1, it.body_close):
+                        if f.kind == "fn" and f.body_open is not None:
+                            manifest.append({"uid": 0, "kind": "fn", "src": src.spec, "name": f.name, "body_tokens": ["{"],
+                                             "body_text": "{", "ctx": " ".join(texts(split_header_where(strip_attrs(it.header))[0]))})
+            i += 1
+            continue
         if cmd == "struct":
             src = getsrc(arg0)
             name = pos[0]
@@ -526,6 +551,8 @@ def selfcheck(gen_text: str, manifest: List[dict]) -> None:
     (after the recorded rewrites, with insertion regions removed)."""
     for rec in manifest:
         uid = rec["uid"]
+        if uid == 0:
+            continue
         m = re.search(r"/\*@B:%d\*/(.*?)/\*@E:%d\*/" % (uid, uid), gen_text, re.S)
         if rec["kind"] == "fn" and rec.get("body_tokens") is None:
             continue
